@@ -5,8 +5,9 @@ import json, sys
 pid = sys.argv[1]
 n = int(sys.argv[2]) if len(sys.argv) > 2 else 3
 WAVE2 = len(sys.argv) > 3 and sys.argv[3] == 'wave2'
-WAVE3 = len(sys.argv) > 3 and sys.argv[3] == 'wave3'
-wt_name = pid + ('b' if WAVE2 else ('c' if WAVE3 else ''))
+WAVE3 = len(sys.argv) > 3 and sys.argv[3] in ('wave3', 'wave4')
+WAVE4 = len(sys.argv) > 3 and sys.argv[3] == 'wave4'
+wt_name = pid + ('b' if WAVE2 else ('d' if WAVE4 else ('c' if WAVE3 else '')))
 for l in open('/verif/properties.jsonl'):
     p = json.loads(l)
     if p['id'] == pid:
